@@ -30,11 +30,11 @@ structure Junc where
     kind present, so that a case is only ever attributed to a known defect class when nothing
     else is wrong with it -/
 def kindOrder : List String :=
-  ["parse", "lists-inconsistent", "deleted-junction-not-freed", "cycle", "hyperedges-merged",
+  ["parse", "crash", "lists-inconsistent", "deleted-junction-not-freed", "cycle", "hyperedges-merged",
    "terminal-dropped", "orphan-object", "route-end-mismatch", "dangling-junction",
    -- kinds that the unmodified library produces on generated scenes (finding candidates, see report):
-   "attached-to-deleted-junction", "crash", "disconnected", "rerouted-route-misses-terminal",
-   "empty-route", "unattached-end", "leak"]
+   "attached-to-deleted-junction", "crash-after-attached-to-deleted-junction", "unattached-end", "disconnected",
+   "rerouted-route-misses-terminal", "empty-route", "leak"]
 
 def kindRank (k : String) : Nat := (kindOrder.findIdx? (· == k)).getD 0
 
@@ -225,6 +225,10 @@ def checkCase (c : Case) : CaseResult := Id.run do
           if deadEnds.isEmpty && unreached.isEmpty && es.length + 1 != verts.length then
             explained := true
             fails := fails.push ⟨"cycle", s!"step {s} hyperedge {h}: {es.length} connectors on {verts.length} vertices (cycle, parallel or self-loop connector)"⟩
+          let loops := es.filter (fun e => e.1 == e.2)
+          if !loops.isEmpty then
+            explained := true
+            fails := fails.push ⟨"cycle", s!"step {s} hyperedge {h}: self-loop connector(s) on {loops.map (fun e => name e.1)}"⟩
           let free := verts.filter (fun v => (name v).startsWith "free-end")
           if !free.isEmpty then explained := true     -- already reported as unattached-end
           if !explained then
@@ -303,7 +307,9 @@ def checkCase (c : Case) : CaseResult := Id.run do
   if (c.get "leak").size > 0 then
     fails := fails.push ⟨"leak", "LeakSanitizer reported a leak after this case's router was deleted (see harness stderr; C15 matter)"⟩
   match c.get1 "crash" with
-  | some l => fails := fails.push ⟨"crash", s!"the library aborted inside transaction {nsteps + 1} (sanitizer report / failed assertion, harness child exit status {l[0]?.getD "?"}); replay the case to see it (C15 matter)"⟩
+  | some l =>
+    let k := if fails.any (fun f => f.kind == "attached-to-deleted-junction") then "crash-after-attached-to-deleted-junction" else "crash"
+    fails := fails.push ⟨k, s!"the library aborted inside transaction {nsteps + 1} (sanitizer report / failed assertion, harness child exit status {l[0]?.getD "?"}); replay the case to see it (C15 matter)"⟩
   | none =>
     if nsteps == 0 then
       fails := fails.push ⟨"parse", "no completed transaction in the case"⟩
